@@ -244,6 +244,13 @@ def run_case(concepts, case, spec):
         seeds = [members[rng.randrange(n)] for _ in range(rng.randint(2, 4))]
         call(list, lat.upset_union(seeds))
         call(list, lat.downset_union(seeds))
+    if len(ctx.objects) <= 12 and len(ctx.properties) <= 12 and n <= 200:
+        common.interference(concepts, ctx, lat, rng, 15)
+        for _ in range(10):
+            x, y = members[rng.randrange(n)], members[rng.randrange(n)]
+            for p in PREDICATES:
+                call(getattr(x, p), y)
+        COL.count('asked_again_after_interference')
     # concepts that outlive every other reference to their lattice and context
     ORPHANS.append(_orphans(concepts, case, spec))
     if len(ORPHANS) >= 8:
